@@ -64,6 +64,9 @@ fn main() {
             let idx = arg_val(&args, "--idx").and_then(|s| s.parse().ok()).unwrap_or(0);
             std::process::exit(single_case_main(check.as_mut(), tier, seed, idx));
         }
+        "sockprobe" => {
+            std::process::exit(props::c12::sockprobe_main(&args[1 ..]));
+        }
         "replay" => {
             let path = args.get(1).cloned().unwrap_or_else(|| usage());
             let doc: serde_json::Value = serde_json::from_slice(&std::fs::read(&path).expect("read replay file")).expect("parse replay file");
